@@ -2178,7 +2178,8 @@ def lex_tokens(line):
     match = RE_STRING.match(line.contents)
     if match is not None:
         value = match.group(1)
-        value = value.encode('utf-8').decode('unicode_escape')
+        # unicode_escape decodes bytes as latin-1: keep non-ASCII text intact while processing escapes
+        value = value.encode('latin-1', 'backslashreplace').decode('unicode_escape')
         tokens = ['string', value]
         return LineTokens(line, tokens)
 
